@@ -4,7 +4,7 @@
     what the implementation itself wrote. *)
 From Coq Require Import List ZArith Bool Lia.
 Import ListNotations.
-From TI Require Import lib.Term lib.TermFacts lib.RectCheck lib.TermScroll lib.Lines
+From TI Require Import lib.Term lib.TermFacts lib.RectCheck lib.TermScroll lib.TermPlace lib.Lines
      model.Padding model.Draw.
 Open Scope Z_scope.
 
@@ -26,6 +26,7 @@ Record dcase := {
   d_clear : list tok;                  (* new: what [_clear_frame_] writes *)
   d_oldk : bool;                       (* old: kitty <= 0.25.0 *)
   d_wez : bool;                        (* old: iterm2 style on wezterm without mix *)
+  d_kitty : bool;                      (* old: kitty style *)
   d_frames : list (list tok);          (* the frames' render outputs, as observed *)
   d_obs : list tok;                    (* what draw() wrote *)
   d_raised : bool;                     (* the documented size error was raised *)
@@ -103,7 +104,18 @@ Definition oz_eqb (a : option Z) (b : Z) : bool :=
 
 (** the executable form of [DrawFinal] on a [W x H] screen, left margin 0, from row [r0]
     of a screen whose top line is virtual row 0: one boolean per clause *)
-Definition final_clauses (W H pw ph : Z) (Ref St : list tok) (r0 : Z) : list bool :=
+Definition pl_eqb (a b : placement) : bool :=
+  (p_r a =? p_r b) && (p_c a =? p_c b) && (p_h a =? p_h b) && (p_w a =? p_w b) && (p_z a =? p_z b).
+Fixpoint pls_eqb (a b : list placement) : bool :=
+  match a, b with
+  | [], [] => true
+  | x :: a', y :: b' => pl_eqb x y && pls_eqb a' b'
+  | _, _ => false
+  end.
+
+(** [kitty]: also demand that the image placements left on the screen ([TermPlace.live]:
+    placed and not removed by a matching delete) are exactly those of [Ref] drawn alone *)
+Definition final_clauses (kitty : bool) (W H pw ph : Z) (Ref St : list tok) (r0 : Z) : list bool :=
   let t0 := start r0 0 in
   let t' := exec 0 t0 St in
   let evs := exec_evs 0 t0 St in
@@ -116,10 +128,11 @@ Definition final_clauses (W H pw ph : Z) (Ref St : list tok) (r0 : Z) : list boo
     oz_eqb (srun W H 0 0 t0 St) (Z.max 0 (r0 + ph + 1 - H));
     forallb (ev_box_or_below r0 0 ph pw) evs;
     forallb (fun i => forallb (fun j =>
-        oev_eqb (lastcov evs (r0 + i) j) (lastcov revs (r0 + i) j)) (zrange 0 pw)) (zrange 0 ph) ].
+        oev_eqb (lastcov evs (r0 + i) j) (lastcov revs (r0 + i) j)) (zrange 0 pw)) (zrange 0 ph);
+    if kitty then pls_eqb (live evs) (live revs) else true ].
 
-Definition final_ok (W H pw ph : Z) (Ref St : list tok) (r0 : Z) : bool :=
-  forallb (fun b => b) (final_clauses W H pw ph Ref St r0).
+Definition final_ok (kitty : bool) (W H pw ph : Z) (Ref St : list tok) (r0 : Z) : bool :=
+  forallb (fun b => b) (final_clauses kitty W H pw ph Ref St r0).
 
 Definition is_nil {A} (l : list A) : bool := match l with [] => true | _ => false end.
 
@@ -127,7 +140,9 @@ Definition model_agrees (c : dcase) : bool :=
   match model_stream c with
   | None => d_raised c && is_nil (d_obs c)
   | Some st => negb (d_raised c) && toks_eqb st (d_obs c)
-  end.
+  end
+  (* [KittyImage._display_animated]: the frames are rendered on the animation z-index *)
+  && (if d_kitty c && d_anim c then forallb kitty_anim_frame_ok (d_frames c) else true).
 
 Definition fits_rule (c : dcase) : bool :=
   let '(pw, ph) := box_of c in
@@ -145,7 +160,7 @@ Definition spec_holds (c : dcase) : bool :=
   Bool.eqb (d_raised c) (negb (fits_rule c))
   && (if d_raised c then is_nil (d_obs c)
       else if (pw <=? d_tw c) && (ph <=? d_th c) && negb (is_nil (d_frames c))
-           then forallb (final_ok (d_tw c) (d_th c) pw ph (ref_of c) (d_obs c)) (d_rows c)
+           then forallb (final_ok (d_kitty c) (d_tw c) (d_th c) pw ph (ref_of c) (d_obs c)) (d_rows c)
            else true).
 
 (** 0 = agrees; +1 differs from the model; +2 the observed behaviour contradicts the
@@ -165,4 +180,4 @@ Definition explain (c : dcase) :=
    | None => (None, 0%nat, length (d_obs c))
    end,
    map (fun r0 => let '(pw, ph) := box_of c in
-                  (r0, final_clauses (d_tw c) (d_th c) pw ph (ref_of c) (d_obs c) r0)) (d_rows c)).
+                  (r0, final_clauses (d_kitty c) (d_tw c) (d_th c) pw ph (ref_of c) (d_obs c) r0)) (d_rows c)).
